@@ -176,6 +176,8 @@ def render_space_formula(f):
             pre = ", " + r_expr(f["pre"])
             return "lambda %s: (%s%s, %s)[2]" % (params, pc, pre, body)
         return "lambda %s: (%s, %s)[1]" % (params, pc, body)
+    if f.get("pre") is not None:
+        return "lambda %s: (%s, %s)[1]" % (params, r_expr(f["pre"]), body)
     return "lambda %s: %s" % (params, body)
 
 
